@@ -77,3 +77,83 @@ Theorem C14_prove_perm : forall (H : Type) (HO : ops H), ops_ok HO ->
   exists t', prove HO s hs' = Some (t', p) /\ Permutation t t'.
 Proof. exact prove_perm. Qed.
 Print Assumptions C14_prove_perm.
+
+(** ** The Go algorithms (Gallina mirrors Model/ProofOps.v, compared with the code on every run)
+    compute exactly the reference values (Proofs/ProofOpsSpec.v) *)
+From Utreexo Require Import Spec.Oracle Model.Verify Model.ProofOps Proofs.CalcSound Proofs.ProofOpsSpec.
+From Coq Require Import Permutation.
+Open Scope N_scope.
+
+(** "The positions reported as missing for proving extra targets are exactly the canonical proof
+    positions that cannot be taken or computed from what is already held": targets in any order *)
+Theorem C14_missing_positions_exact :
+  forall (H : Type) (HO : ops H), ops_ok HO ->
+  forall s : slots H, N.of_nat (length s) <= 2 ^ 63 ->
+  forall (have want : list H) (th tw : list (node H)) (tH tW : list N),
+    NoDup have -> NoDup want ->
+    find_leaves HO (layout HO s) have = Some th ->
+    find_leaves HO (layout HO s) want = Some tw ->
+    Permutation tH (map (npos (rows_of (num_leaves s))) th) ->
+    Permutation tW (map (npos (rows_of (num_leaves s))) tw) ->
+    exp_missing HO (mk_ctx HO s) have want = Some (GetMissingPositionsFn (N.of_nat (length s)) tH tW).
+Proof. exact missing_spec. Qed.
+Print Assumptions C14_missing_positions_exact.
+
+(** "Combining two valid proofs of the same state gives the canonical proof of the union of their
+    targets": inputs in any parallel order, [U] any duplicate-free listing of the union *)
+Theorem C14_addproof_is_canonical_union :
+  forall (H : Type) (HO : ops H), ops_ok HO ->
+  forall s : slots H, N.of_nat (length s) <= 2 ^ 63 ->
+  forall (A B U : list H) (tA tB : list N) (pA pB : list H),
+    NoDup A -> NoDup B -> NoDup U ->
+    (forall h, In h U <-> In h A \/ In h B) ->
+    exp_prove HO (mk_ctx HO s) A = Some (tA, pA) ->
+    exp_prove HO (mk_ctx HO s) B = Some (tB, pB) ->
+    AddProof tA pA tB pB A B (N.of_nat (length s)) = exp_cached HO (mk_ctx HO s) U /\
+    exp_cached HO (mk_ctx HO s) U <> None.
+Proof. exact addproof_spec. Qed.
+Print Assumptions C14_addproof_is_canonical_union.
+
+(** the same for two cached proofs as a light client holds them *)
+Theorem C14_addproof_cached :
+  forall (H : Type) (HO : ops H) (s : slots H) (A B U hA hB : list H) (tA tB : list N) (pA pB : list H),
+    ops_ok HO -> N.of_nat (length s) <= 2 ^ 63 -> NoDup (live s) ->
+    NoDup A -> NoDup B -> NoDup U ->
+    (forall h, In h U <-> In h A \/ In h B) ->
+    exp_cached HO (mk_ctx HO s) A = Some (hA, tA, pA) ->
+    exp_cached HO (mk_ctx HO s) B = Some (hB, tB, pB) ->
+    AddProof tA pA tB pB hA hB (N.of_nat (length s)) = exp_cached HO (mk_ctx HO s) U /\
+    exp_cached HO (mk_ctx HO s) U <> None.
+Proof. exact @addproof_cached. Qed.
+Print Assumptions C14_addproof_cached.
+
+(** "restricting a valid proof to a subset of its targets gives the canonical proof of that subset
+    with hashes and targets in the requested order ..." *)
+Theorem C14_subset_is_canonical :
+  forall (H : Type) (HO : ops H), ops_ok HO ->
+  (forall a b, NZ HO (op_hash2 HO a b)) ->
+  forall s : slots H, (forall h, In (Some h) s -> NZ HO h) ->
+  N.of_nat (length s) <= 2 ^ 63 ->
+  forall (hs : list H) (ts : list N) (pf : list H) (wants : list N),
+    NoDup hs -> exp_prove HO (mk_ctx HO s) hs = Some (ts, pf) ->
+    NoDup wants -> (forall w, In w wants -> In w ts) ->
+    exists hw pw,
+      exp_prove HO (mk_ctx HO s) hw = Some (wants, pw) /\
+      hw = map (Fv H HO s) wants /\
+      (forall h, In h hw -> In h hs) /\
+      GetProofSubset HO ts pf hs wants (N.of_nat (length s)) = Some (hw, wants, pw).
+Proof. exact subset_spec. Qed.
+Print Assumptions C14_subset_is_canonical.
+
+(** "... and fails with an error exactly when a requested target is not covered" *)
+Theorem C14_subset_error_iff_uncovered :
+  forall (H : Type) (HO : ops H) (s : slots H) (hs : list H) (ts : list N) (pf : list H) (wants : list N),
+    ops_ok HO ->
+    (forall a b, NZ HO (op_hash2 HO a b)) ->
+    (forall h, In (Some h) s -> NZ HO h) ->
+    N.of_nat (length s) <= 2 ^ 63 ->
+    NoDup hs -> exp_prove HO (mk_ctx HO s) hs = Some (ts, pf) -> NoDup wants ->
+    GetProofSubset HO ts pf hs wants (N.of_nat (length s)) = None <->
+    (exists w, In w wants /\ ~ In w ts).
+Proof. exact @subset_error_iff. Qed.
+Print Assumptions C14_subset_error_iff_uncovered.
